@@ -15,6 +15,10 @@ pub open spec fn proposer_applied<C: ContentAddrStore>(s: UnsealedState<C>, a: P
     &&& r.network == s.network && r.height == s.height && r.history == s.history && r.transactions == s.transactions
     &&& r.dosc_speed == s.dosc_speed && r.pools == s.pools && r.stakes == s.stakes
 }
+/// C09 envelopes of the TIP-909 subsidy step, on the state after melmint settlement
+pub open spec fn tip909_env<C: ContentAddrStore>(s: UnsealedState<C>) -> bool {
+    s.height.0 < 950000 + 128 * 1_000_000 && s.pools@.contains_key(pk_mel_sym()) && s.fee_pool.0 + s.pools@[pk_mel_sym()].lefts <= u128::MAX
+}
 /// sealing = melmint settlement, then the TIP-909 subsidy when active, then the proposer action if there is one
 pub open spec fn seal_rel<C: ContentAddrStore>(s: UnsealedState<C>, a: Option<ProposerAction>, r: UnsealedState<C>) -> bool {
     let s1 = spec_preseal(s);
